@@ -246,6 +246,16 @@ def readFull (n : Nat) (w : List WByte) : Except RErr (List WByte) × List WByte
   else if w = [] then (.error .eof, [])
   else (.error .short, [])
 
+/-- `io.ReadFull(r, buf[:n])` over a reader that hands out the stream in fragments (one list
+    element per `Read` that could be satisfied; a `Read` never returns more than is asked for):
+    the bytes assembled and the fragments left, or `none` if the stream ends first.  Used for
+    the handshake acts (`Dial`, `doHandshake`: n = act size) and for `ReadHeader`/`ReadBody`. -/
+def readFullF {α : Type} (n : Nat) : List (List α) → Option (List α × List (List α))
+  | [] => if n = 0 then some ([], []) else none
+  | f :: fs =>
+    if n ≤ f.length then some (f.take n, f.drop n :: fs)
+    else (readFullF (n - f.length) fs).map (fun r => (f ++ r.1, r.2))
+
 /-- `Machine.ReadHeader`: returns `pktLen` (= payload length + macSize). -/
 def readHeader (c : CipherState) (w : List WByte) : Except RErr Nat × CipherState × List WByte :=
   match readFull encHeaderSize w with
